@@ -174,16 +174,18 @@ package workflow
 //@ fields executableWorkflow immutable: logger config callableFunctions dag input stepRunData workflowContext internalDataModel runnableSteps lifecycles outputSchema
 //@ fields DAGItem immutable: Kind StepID StageID OutputID OutputSchema Data DataSchema Provider
 //@ pure outputSchemaMap(e *executableWorkflow) map[string]*schema.StepOutputSchema = e.outputSchema
-//@ pred wfitem(it *DAGItem) = it != nil && \
+//@ pred wfitem(it *DAGItem) = it != nil && allocated(it) && \
 //@     (it.Data != nil ==> it.Kind == DAGItemKindStepStage || it.Kind == DAGItemKindOutput) && \
 //@     (it.Kind == DAGItemKindStepStage ==> it.StepID != "" && it.StageID != "") && \
 //@     (it.Kind == DAGItemKindStepStage && it.Data != nil ==> typeis(it.Data, map[any]any) && \
 //@         (forall k any :: indom(it.Data.(map[any]any), k) ==> typeis(k, string)))
 // every stage node belongs to a step of the workflow
-//@ pred stepsKnown(l *loopState) = forall id string :: indag(l.dag, id) && nodeitem(dagnode(l.dag, id)).(*DAGItem).Kind == DAGItemKindStepStage ==> \
-//@     indom(l.lifecycles, nodeitem(dagnode(l.dag, id)).(*DAGItem).StepID)
-//@ pred stepsKnownE(e *executableWorkflow) = forall id string :: indag(e.dag, id) && nodeitem(dagnode(e.dag, id)).(*DAGItem).Kind == DAGItemKindStepStage ==> \
-//@     indom(e.lifecycles, nodeitem(dagnode(e.dag, id)).(*DAGItem).StepID)
+//@ pred stepsKnownIn(dag any, lc map[string]step.Lifecycle[step.LifecycleStageWithSchema]) = forall id string :: indag(dag, id) && \
+//@     nodeitem(dagnode(dag, id)).(*DAGItem).Kind == DAGItemKindStepStage ==> indom(lc, nodeitem(dagnode(dag, id)).(*DAGItem).StepID)
+//@ pred stepsKnown(l *loopState) = stepsKnownIn(l.dag, l.lifecycles)
+//@ pred stepsKnownE(e *executableWorkflow) = stepsKnownIn(e.dag, e.lifecycles)
+// nodes added by a preparation step are not stage nodes / are stage nodes of one step
+//@ pred newNodesNotStages() = forall d any, k string :: indag(d, k) && !old(indag(d, k)) ==> typeis(nodeitem(dagnode(d, k)), *DAGItem) && nodeitem(dagnode(d, k)).(*DAGItem).Kind != DAGItemKindStepStage
 //@ pred wfitems(d any) = forall id string :: indag(d, id) ==> typeis(nodeitem(dagnode(d, id)), *DAGItem) && wfitem(nodeitem(dagnode(d, id)).(*DAGItem))
 //@ pred wfexec(e *executableWorkflow) = e != nil && e.logger != nil && e.config != nil && e.dag != nil && e.input != nil && wfitems(e.dag) && stepsKnownE(e) && \
 //@     (forall k string :: indom(e.outputSchema, k) ==> e.outputSchema[k] != nil) && \
@@ -355,6 +357,9 @@ package workflow
 //
 //@ func (*executor).createGroupNode
 //@   requires currentNode != nil && dag != nil && nodedag(currentNode) == dag
+//@   requires wfitems(dag)
+//@   ensures [graph-items-stay-well-formed] wfitems(dag)
+//@   ensures [adds-no-stage-node] (forall d any, k string :: indag(d, k) && !old(indag(d, k)) ==> typeis(nodeitem(dagnode(d, k)), *DAGItem) && nodeitem(dagnode(d, k)).(*DAGItem).Kind != DAGItemKindStepStage)
 //@   modifies ghost indag, ghost dep, ghost nodestatus
 //@   ensures [group-node-under-the-current-node] result1 == nil ==> result != nil && nodedag(result) == dag && \
 //@        nodeid(result) == nodeid(currentNode) + "." + callres(strings.Join, 1, 0) && indag(dag, nodeid(result)) && !old(indag(dag, nodeid(result))) && \
@@ -387,6 +392,9 @@ package workflow
 //
 //@ func (*executor).prepareOptionalExprDependencies
 //@   requires e != nil && e.logger != nil && expr != nil && expr.Expr != nil && currentNode != nil && dag != nil && nodedag(currentNode) == dag
+//@   requires wfitems(dag)
+//@   ensures [graph-items-stay-well-formed] wfitems(dag)
+//@   ensures [adds-no-stage-node] (forall d any, k string :: indag(d, k) && !old(indag(d, k)) ==> typeis(nodeitem(dagnode(d, k)), *DAGItem) && nodeitem(dagnode(d, k)).(*DAGItem).Kind != DAGItemKindStepStage)
 //@   modifies expr.GroupNodePath, expr.ParentNodePath, ghost indag, ghost dep, ghost nodestatus
 //@   ensures [an-optional-field-hangs-on-its-own-group-node] result == nil ==> expr.ParentNodePath == nodeid(currentNode) && indag(dag, expr.GroupNodePath) && \
 //@        dep(dag, nodeid(currentNode), expr.GroupNodePath) == ite(expr.WaitForCompletion, "completion-and", "optional")
@@ -397,6 +405,11 @@ package workflow
 //
 //@ func (*executor).prepareDependencies
 //@   requires e != nil && e.logger != nil && currentNode != nil && dag != nil && nodedag(currentNode) == dag
+//@   requires wfitems(dag)
+//@   ensures [graph-items-stay-well-formed] wfitems(dag)
+//@   ensures [adds-no-stage-node] (forall d any, k string :: indag(d, k) && !old(indag(d, k)) ==> typeis(nodeitem(dagnode(d, k)), *DAGItem) && nodeitem(dagnode(d, k)).(*DAGItem).Kind != DAGItemKindStepStage)
+//@   loop 1 invariant wfitems(dag) && (forall d any, k string :: indag(d, k) && !old(indag(d, k)) ==> typeis(nodeitem(dagnode(d, k)), *DAGItem) && nodeitem(dagnode(d, k)).(*DAGItem).Kind != DAGItemKindStepStage)
+//@   loop 2 invariant wfitems(dag) && (forall d any, k string :: indag(d, k) && !old(indag(d, k)) ==> typeis(nodeitem(dagnode(d, k)), *DAGItem) && nodeitem(dagnode(d, k)).(*DAGItem).Kind != DAGItemKindStepStage)
 //@   modifies ghost indag, ghost dep, ghost nodestatus, fields infer.OneOfExpression, fields infer.OptionalExpression, slice pathInCurrentNode
 //@   ensures [nothing-is-removed] (forall d any, k string :: old(indag(d, k)) ==> indag(d, k)) && \
 //@        (forall d any, t string, f string :: old(dep(d, t, f)) != "" ==> dep(d, t, f) == old(dep(d, t, f)))
@@ -406,6 +419,10 @@ package workflow
 //
 //@ func (*executor).prepareOneOfExprDependencies
 //@   requires e != nil && e.logger != nil && expr != nil && currentNode != nil && dag != nil && nodedag(currentNode) == dag
+//@   requires wfitems(dag)
+//@   ensures [graph-items-stay-well-formed] wfitems(dag)
+//@   ensures [adds-no-stage-node] (forall d any, k string :: indag(d, k) && !old(indag(d, k)) ==> typeis(nodeitem(dagnode(d, k)), *DAGItem) && nodeitem(dagnode(d, k)).(*DAGItem).Kind != DAGItemKindStepStage)
+//@   loop 1 invariant wfitems(dag) && (forall d any, k string :: indag(d, k) && !old(indag(d, k)) ==> typeis(nodeitem(dagnode(d, k)), *DAGItem) && nodeitem(dagnode(d, k)).(*DAGItem).Kind != DAGItemKindStepStage)
 //@   modifies ghost indag, ghost dep, ghost nodestatus, fields infer.OneOfExpression, fields infer.OptionalExpression, slice pathInCurrentNode
 //@   site range#1 assert [the-oneof-remembers-its-node] expr.NodePath == nodeid(oneofDagNode) && indag(dag, expr.NodePath) && dep(dag, nodeid(currentNode), expr.NodePath) == "and"
 //@   ensures [a-oneof-hangs-on-its-own-node] result == nil ==> called(createGroupNode, 1) && callres(createGroupNode, 1, 1) == nil && \
@@ -434,6 +451,10 @@ package workflow
 //
 //@ func (*executor).addOutputProperties
 //@   requires dag != nil && stepNode != nil && nodedag(stepNode) == dag && stageOutputProperties != nil && stage.ID != "" && stepID != ""
+//@   requires wfitems(dag)
+//@   ensures [graph-items-stay-well-formed] wfitems(dag)
+//@   ensures [adds-no-stage-node] (forall d any, k string :: indag(d, k) && !old(indag(d, k)) ==> typeis(nodeitem(dagnode(d, k)), *DAGItem) && nodeitem(dagnode(d, k)).(*DAGItem).Kind != DAGItemKindStepStage)
+//@   loop 1 invariant wfitems(dag) && (forall d any, k string :: indag(d, k) && !old(indag(d, k)) ==> typeis(nodeitem(dagnode(d, k)), *DAGItem) && nodeitem(dagnode(d, k)).(*DAGItem).Kind != DAGItemKindStepStage)
 //@   requires forall o string :: indom(stage.Outputs, o) ==> stage.Outputs[o] != nil
 //@   modifies ghost indag, ghost dep, ghost nodestatus, map stageOutputProperties
 //@   ensures [every-declared-output-gets-a-node-below-its-stage] result1 == nil ==> (forall o string :: indom(stage.Outputs, o) && o != "" ==> \
@@ -448,6 +469,10 @@ package workflow
 //
 //@ func (*executor).buildOutputProperties
 //@   requires dag != nil && stepID != ""
+//@   requires wfitems(dag)
+//@   ensures [graph-items-stay-well-formed] wfitems(dag)
+//@   ensures [new-stage-nodes-belong-to-this-step] (forall d any, k string :: indag(d, k) && !old(indag(d, k)) ==> typeis(nodeitem(dagnode(d, k)), *DAGItem) && (nodeitem(dagnode(d, k)).(*DAGItem).Kind == DAGItemKindStepStage ==> nodeitem(dagnode(d, k)).(*DAGItem).StepID == stepID))
+//@   loop 1 invariant wfitems(dag) && (forall d any, k string :: indag(d, k) && !old(indag(d, k)) ==> typeis(nodeitem(dagnode(d, k)), *DAGItem) && (nodeitem(dagnode(d, k)).(*DAGItem).Kind == DAGItemKindStepStage ==> nodeitem(dagnode(d, k)).(*DAGItem).StepID == stepID))
 //@   requires forall i int :: 0 <= i && i < len(typedLifecycle.Stages) ==> typedLifecycle.Stages[i].ID != "" && \
 //@        (forall o string :: indom(typedLifecycle.Stages[i].Outputs, o) ==> typedLifecycle.Stages[i].Outputs[o] != nil)
 //@   modifies ghost indag, ghost dep, ghost nodestatus
@@ -483,10 +508,17 @@ package workflow
 //@ func (*executor).connectStepDependencies
 //@   opt init construction
 //@   requires e != nil && e.logger != nil && workflow != nil && dag != nil
+//@   requires wfitems(dag)
+//@   ensures [graph-items-stay-well-formed] wfitems(dag)
+//@   ensures [adds-no-stage-node] (forall d any, k string :: indag(d, k) && !old(indag(d, k)) ==> typeis(nodeitem(dagnode(d, k)), *DAGItem) && nodeitem(dagnode(d, k)).(*DAGItem).Kind != DAGItemKindStepStage)
+//@   loop 1 invariant wfitems(dag) && (forall d any, k string :: indag(d, k) && !old(indag(d, k)) ==> typeis(nodeitem(dagnode(d, k)), *DAGItem) && nodeitem(dagnode(d, k)).(*DAGItem).Kind != DAGItemKindStepStage)
+//@   loop 2 invariant wfitems(dag) && (forall d any, k string :: indag(d, k) && !old(indag(d, k)) ==> typeis(nodeitem(dagnode(d, k)), *DAGItem) && nodeitem(dagnode(d, k)).(*DAGItem).Kind != DAGItemKindStepStage)
+//@   loop 3 invariant wfitems(dag) && (forall d any, k string :: indag(d, k) && !old(indag(d, k)) ==> typeis(nodeitem(dagnode(d, k)), *DAGItem) && nodeitem(dagnode(d, k)).(*DAGItem).Kind != DAGItemKindStepStage)
+//@   loop 4 invariant wfitems(dag) && (forall d any, k string :: indag(d, k) && !old(indag(d, k)) ==> typeis(nodeitem(dagnode(d, k)), *DAGItem) && nodeitem(dagnode(d, k)).(*DAGItem).Kind != DAGItemKindStepStage)
 //@   requires forall s string :: indom(workflow.Steps, s) ==> typeis(workflow.Steps[s], map[any]any)
 //@   requires forall s string, i int :: indom(workflow.Steps, s) && 0 <= i && i < len(stepLifecycles[s].Stages) ==> stageNodeOK(dag, s, stepLifecycles[s].Stages[i].ID)
-//@   requires [dependency-types-are-not-empty] forall s string, i int :: indom(workflow.Steps, s) && 0 <= i && i < len(stepLifecycles[s].Stages) ==> (forall n string :: indom(stepLifecycles[s].Stages[i].NextStages, n) ==> stepLifecycles[s].Stages[i].NextStages[n] != "")
-//@   modifies ghost indag, ghost dep, ghost nodestatus, fields infer.OneOfExpression, fields infer.OptionalExpression, fields DAGItem
+//@   requires [lifecycles-are-well-formed] forall s string, lc step.Lifecycle[step.LifecycleStageWithSchema] :: indom(workflow.Steps, s) && lc == stepLifecycles[s] ==> lifecycleOK(lc)
+//@   modifies ghost indag, ghost dep, ghost nodestatus, fields infer.OneOfExpression, fields infer.OptionalExpression, fam H|go.flow.arcalot.io/engine/workflow.DAGItem|Data, fam H|go.flow.arcalot.io/engine/workflow.DAGItem|DataSchema
 //@   ensures [stages-of-a-step-are-ordered-as-its-lifecycle-says] result == nil ==> (forall s string, i int :: indom(workflow.Steps, s) && 0 <= i && i < len(stepLifecycles[s].Stages) ==> \
 //@        lifecycleEdges(dag, s, stepLifecycles[s].Stages[i]))
 //@   ensures [stage-nodes-keep-their-identity-and-get-field-maps] forall s string, i int :: indom(workflow.Steps, s) && 0 <= i && i < len(stepLifecycles[s].Stages) ==> stageNodeOK(dag, s, stepLifecycles[s].Stages[i].ID)
@@ -504,7 +536,7 @@ package workflow
 //@   loop 2 invariant forall s string :: visited(s) ==> indom(workflow.Steps, s)
 //@   loop 3 invariant forall s string :: visitedin(1, s) ==> indom(workflow.Steps, s)
 //@   loop 4 invariant forall s string :: visitedin(1, s) ==> indom(workflow.Steps, s)
-//@   loop 2 invariant forall i int :: 0 <= i && i < len(lifecycle.Stages) ==> (forall n string :: indom(lifecycle.Stages[i].NextStages, n) ==> lifecycle.Stages[i].NextStages[n] != "")
+//@   loop 2 invariant lifecycleOK(lifecycle)
 //@   loop 3 invariant (forall n string :: indom(stage.NextStages, n) ==> stage.NextStages[n] != "") && -1 <= outeridx && outeridx + 1 < len(lifecycle.Stages) && stage == lifecycle.Stages[outeridx + 1]
 //@   loop 4 invariant (forall n string :: indom(stage.NextStages, n) ==> stage.NextStages[n] != "") && -1 <= outeridx && outeridx + 1 < len(lifecycle.Stages) && stage == lifecycle.Stages[outeridx + 1]
 //@   loop 3 invariant forall s string, i int :: visitedin(1, s) && s != stepID && 0 <= i && i < len(stepLifecycles[s].Stages) ==> lifecycleEdges(dag, s, stepLifecycles[s].Stages[i])
@@ -519,3 +551,57 @@ package workflow
 //@   loop 4 invariant stageData != nil && (forall k any :: indom(stageData, k) ==> typeis(k, string))
 //@   loop 4 invariant (forall d any, k string :: old(indag(d, k)) ==> indag(d, k)) && (forall d any, t string, f string :: old(dep(d, t, f)) != "" ==> dep(d, t, f) == old(dep(d, t, f)))
 //@   loop 4 invariant currentStageNode != nil && nodedag(currentStageNode) == dag && nodeid(currentStageNode) == stagenode(stepID, stage.ID) && lifecycleEdges(dag, stepID, stage)
+//
+// ---- Prepare: from the raw workflow to the prepared one ----
+//@ fields executor immutable: logger config stepRegistry callableFunctions callableFunctionSchemas
+//@ func (*executor).loadSchema
+//@   requires e != nil && stepKind != nil
+//@   ensures [runnable-step-or-error] (result1 == nil) != (result == nil)
+//@ func (*executor).getRunData
+//@   requires e != nil && stepKind != nil && runnableStep != nil
+//
+//@ pred stepsPrepared(workflow *Workflow, dag any, rs map[string]step.RunnableStep, lcs map[string]step.Lifecycle[step.LifecycleStageWithSchema]) = \
+//@     (forall s string :: indom(workflow.Steps, s) ==> typeis(workflow.Steps[s], map[any]any) && indom(rs, s) && rs[s] != nil && indom(lcs, s)) && \
+//@     (forall s string :: indom(lcs, s) ==> indom(rs, s)) && (forall s string :: indom(rs, s) ==> rs[s] != nil) && \
+//@     (forall s string, lc step.Lifecycle[step.LifecycleStageWithSchema] :: indom(workflow.Steps, s) && lc == lcs[s] ==> lifecycleOK(lc)) && \
+//@     (forall s string, i int :: indom(workflow.Steps, s) && 0 <= i && i < len(lcs[s].Stages) ==> stageNodeOK(dag, s, lcs[s].Stages[i].ID)) && \
+//@     stepsKnownIn(dag, lcs)
+//
+//@ func (*executor).processSteps
+//@   requires e != nil && e.logger != nil && e.stepRegistry != nil && workflow != nil && dag != nil && wfitems(dag)
+//@   requires [step-ids-are-not-empty] forall s string :: indom(workflow.Steps, s) ==> s != ""
+//@   requires [no-stage-nodes-yet] forall id string :: indag(dag, id) ==> nodeitem(dagnode(dag, id)).(*DAGItem).Kind != DAGItemKindStepStage
+//@   ensures [steps-are-loaded-and-have-their-nodes] result4 == nil ==> result != nil && result2 != nil && stepsPrepared(workflow, dag, result, result2) && wfitems(dag)
+//@   ensures [nothing-is-removed] (forall d any, k string :: old(indag(d, k)) ==> indag(d, k)) && \
+//@        (forall d any, t string, f string :: old(dep(d, t, f)) != "" ==> dep(d, t, f) == old(dep(d, t, f)))
+//@   loop 1 invariant runnableSteps != nil && stepLifecycles != nil && stepOutputProperties != nil && stepRunData != nil && wfitems(dag) && stepsKnownIn(dag, stepLifecycles)
+//@   loop 1 invariant forall s string :: visited(s) ==> typeis(workflow.Steps[s], map[any]any) && indom(runnableSteps, s) && runnableSteps[s] != nil && indom(stepLifecycles, s)
+//@   loop 1 invariant (forall s string :: indom(stepLifecycles, s) ==> indom(runnableSteps, s)) && (forall s string :: indom(runnableSteps, s) ==> runnableSteps[s] != nil)
+//@   loop 1 invariant forall s string, lc step.Lifecycle[step.LifecycleStageWithSchema] :: visited(s) && lc == stepLifecycles[s] ==> lifecycleOK(lc)
+//@   loop 1 invariant forall s string, i int :: visited(s) && 0 <= i && i < len(stepLifecycles[s].Stages) ==> stageNodeOK(dag, s, stepLifecycles[s].Stages[i].ID)
+//@   loop 1 invariant (forall d any, k string :: old(indag(d, k)) ==> indag(d, k)) && (forall d any, t string, f string :: old(dep(d, t, f)) != "" ==> dep(d, t, f) == old(dep(d, t, f)))
+//@   loop 1 invariant forall s string :: visited(s) ==> indom(workflow.Steps, s)
+//
+//@ func (*executor).processInput
+//@   requires e != nil && workflow != nil
+//@   ensures [input-scope-or-error] (result1 == nil) != (result == nil)
+//@ func (*executor).buildInternalDataModel
+//@   ensures result != nil
+// The namespace and compatibility passes only read the graph and the step tables (they write into
+// schema objects of the plugin SDK and into maps they create). Assumed here, not verified.
+//@ func applyLifecycleNamespaces
+//@   opt modular assumed
+//@   modifies nothing
+//@ func (*executor).classifyWorkflowStageInputs
+//@   opt modular assumed
+//@   requires e != nil && e.logger != nil && workflow != nil && dag != nil
+//@   modifies nothing
+//
+//@ func (*executor).Prepare
+//@   requires e != nil && e.logger != nil && e.config != nil && e.stepRegistry != nil && workflow != nil
+//@   requires [step-ids-are-not-empty] forall s string :: indom(workflow.Steps, s) ==> s != ""
+//@   ensures [workflow-or-error] (result1 == nil) != (result == nil)
+//@   ensures [a-prepared-workflow-satisfies-its-representation-invariant] result1 == nil ==> typeis(result, *executableWorkflow) && wfexec(result.(*executableWorkflow))
+//@   ensures [cycles-are-checked-last] result1 == nil ==> called(HasCycles, 1) && !callres(HasCycles, 1, 0)
+//@   loop 1 invariant outputsSchema != nil && wfitems(dag) && stepsKnownIn(dag, stepLifecycles) && (forall k string :: indom(outputsSchema, k) ==> outputsSchema[k] != nil)
+//@   loop 1 invariant forall k string :: visited(k) ==> indom(outputsSchema, k) && indag(dag, outputnode(k))
